@@ -6,7 +6,7 @@ theorem scan_eq_ref (l : List Entry) (v : Nat) : scan l (v : Int) = selectRef l 
   | nil => simp [scan, selectRef]
   | cons e r ih =>
     obtain ⟨n, w⟩ := e
-    simp only [scan, selectRef, Gen.WeightedCluster.step]
+    simp only [scan, selectRef, Gen.WeightedCluster.stepCtl]
     by_cases h : v < w
     · have : ((v : Int) - (w : Int) < 0) := by omega
       simp [h, this]
